@@ -549,6 +549,10 @@ fn describe(cx: &Cx, name: &str, body: (usize, usize)) -> Row {
     let mut tail = String::new();
     let whiles = cx.all(s, e, "while i < $A . len ( ) {");
     let mut flags_loop = false;
+    // the variable an option arm assigns (`"NX" => nx = true`, `"EX" => { …; ex = Some(…) }`) names the option in
+    // the conflict rules that follow the loop
+    let mut var_kw: BTreeMap<String, String> = BTreeMap::new();
+    let mut loop_end: Option<usize> = None;
     for (wi, (_, we, _)) in whiles.iter().enumerate() {
         let lb = we - 1;
         let rb = close_of(t, lb).unwrap_or(e);
@@ -570,6 +574,13 @@ fn describe(cx: &Cx, name: &str, body: (usize, usize)) -> Row {
                     continue;
                 }
                 let names = arm_names(a);
+                if let Some(first) = names.first() {
+                    for j in bs..be.saturating_sub(1) {
+                        if let (Tk::Id(v), true) = (&t[j], is_p(&t[j + 1], "=")) {
+                            if v != "i" && (j == bs || !is_id(&t[j - 1], "let")) { var_kw.entry(v.clone()).or_insert(first.clone()); break; }
+                        }
+                    }
+                }
                 // refused by name
                 if let Some((_, c, ix)) = m_at_ix(t, bs, "return Err ( format ! ( $s , opt ) )", cx.arr) {
                     attributed.insert(ix[0]);
@@ -594,7 +605,7 @@ fn describe(cx: &Cx, name: &str, body: (usize, usize)) -> Row {
                     opts.push(format!("{}:{}:{}", n, if kinds.is_empty() { "-".to_string() } else { kinds.join(",") }, missing));
                 }
             }
-            if flags_loop { tail = "flags".into(); } else { tail = "scan".into(); }
+            if flags_loop { tail = "flags".into(); } else { tail = "scan".into(); loop_end = Some(rb); }
         } else if wi > 0 || flags_loop {
             // the pairs loop that follows a flags loop
             let ex = cx.extractions(lb, rb);
@@ -685,6 +696,64 @@ fn describe(cx: &Cx, name: &str, body: (usize, usize)) -> Row {
     }
     if tail == "flags" { tail = "?".into(); }
     row.insert("tail".into(), tail);
+    // ---- the conflict rules that follow an option scan: `if COND { return Err("text") }` over the option variables
+    let mut checks: Vec<String> = Vec::new();
+    if let Some(le) = loop_end {
+        // `let v = [a.is_some(), …, flag].iter().filter(|&&x| x).count();`
+        let mut counts: BTreeMap<String, String> = BTreeMap::new();
+        for (ls, _, c) in cx.all(le, e, "let $i = [") {
+            let lb = ls + 3;
+            if let Some(rb) = close_of(t, lb) {
+                if cx.at(rb + 1, ". iter ( ) . filter ( | && x | x ) . count ( ) ;").is_some() {
+                    let mut names: Vec<String> = Vec::new();
+                    let mut ok = true;
+                    let mut j = lb + 1;
+                    while j < rb {
+                        match &t[j] {
+                            Tk::Id(v) => {
+                                match var_kw.get(v) { Some(k) => names.push(k.clone()), None => ok = false }
+                                j += 1;
+                                if cx.at(j, ". is_some ( )").is_some() { j += 4; }
+                            }
+                            Tk::P(x) if x == "," => j += 1,
+                            _ => { ok = false; j += 1; }
+                        }
+                    }
+                    if ok { counts.insert(c[0].clone(), format!("count({})", names.join(","))); }
+                }
+            }
+        }
+        let mut i = le + 1;
+        let mut d = 0i32;
+        while i < e {
+            match &t[i] {
+                Tk::P(x) if x == "{" || x == "(" || x == "[" => d += 1,
+                Tk::P(x) if x == "}" || x == ")" || x == "]" => d -= 1,
+                _ => {}
+            }
+            if d == 0 && is_id(&t[i], "if") {
+                // condition up to the `{`
+                let mut j = i + 1;
+                let mut pd = 0i32;
+                while j < e {
+                    match &t[j] {
+                        Tk::P(x) if x == "(" || x == "[" => pd += 1,
+                        Tk::P(x) if x == ")" || x == "]" => pd -= 1,
+                        Tk::P(x) if x == "{" && pd == 0 => break,
+                        _ => {}
+                    }
+                    j += 1;
+                }
+                if let Some((_, c, ix)) = m_at_ix(t, j, "{ return Err ( $s", cx.arr) {
+                    let cond = parse_cond(&t[i + 1..j], &var_kw, &counts);
+                    let _ = ix;
+                    checks.push(format!("{}:{}", cond.unwrap_or_else(|| "?".to_string()), hexs(&c[0])));
+                }
+            }
+            i += 1;
+        }
+    }
+    row.insert("checks".into(), if checks.is_empty() { "-".into() } else { checks.join("|") });
     opts.sort();
     row.insert("opts".into(), if opts.is_empty() { "-".into() } else { opts.join("|") });
     row.insert("unk".into(), unk);
@@ -737,6 +806,49 @@ fn describe(cx: &Cx, name: &str, body: (usize, usize)) -> Row {
     conds.sort();
     row.insert("conds".into(), conds.join(";"));
     row
+}
+
+/// a conflict condition over option variables, printed as the model prints its `Cond`: `(A&&B)`, `(A||B)` (binary,
+/// left-associated), `count(A,B,…)>n`; `None` = a form this reader does not know
+fn parse_cond(t: &[Tk], var_kw: &BTreeMap<String, String>, counts: &BTreeMap<String, String>) -> Option<String> {
+    fn atom(t: &[Tk], i: &mut usize, vk: &BTreeMap<String, String>, cn: &BTreeMap<String, String>) -> Option<String> {
+        match t.get(*i)? {
+            Tk::P(x) if x == "(" => {
+                *i += 1;
+                let r = or_expr(t, i, vk, cn)?;
+                if !is_p(t.get(*i)?, ")") { return None; }
+                *i += 1;
+                Some(r)
+            }
+            Tk::Id(v) => {
+                *i += 1;
+                if let Some(c) = cn.get(v) {
+                    // `count_var > n`
+                    if is_p(t.get(*i)?, ">") {
+                        if let Tk::Num(n) = t.get(*i + 1)? { *i += 2; return Some(format!("{}>{}", c, n)); }
+                    }
+                    return None;
+                }
+                let k = vk.get(v)?.clone();
+                if m_at(t, *i, ". is_some ( )", "").is_some() { *i += 4; }
+                Some(k)
+            }
+            _ => None,
+        }
+    }
+    fn and_expr(t: &[Tk], i: &mut usize, vk: &BTreeMap<String, String>, cn: &BTreeMap<String, String>) -> Option<String> {
+        let mut l = atom(t, i, vk, cn)?;
+        while *i < t.len() && is_p(&t[*i], "&&") { *i += 1; let r = atom(t, i, vk, cn)?; l = format!("({}&&{})", l, r); }
+        Some(l)
+    }
+    fn or_expr(t: &[Tk], i: &mut usize, vk: &BTreeMap<String, String>, cn: &BTreeMap<String, String>) -> Option<String> {
+        let mut l = and_expr(t, i, vk, cn)?;
+        while *i < t.len() && is_p(&t[*i], "||") { *i += 1; let r = and_expr(t, i, vk, cn)?; l = format!("({}||{})", l, r); }
+        Some(l)
+    }
+    let mut i = 0;
+    let r = or_expr(t, &mut i, var_kw, counts)?;
+    if i == t.len() { Some(r) } else { None }
 }
 
 pub struct Extracted {
